@@ -215,8 +215,13 @@ class Sandbox:
             # replace cache file bytes (corruption classes, C15)
             if os.path.isdir(os.path.dirname(self.cache)) and \
                     not os.path.isdir(self.cache):
+                st = os.stat(self.cache) if os.path.isfile(self.cache) \
+                    else None
                 with open(self.cache, 'wb') as f:
                     f.write(m[1])
+                if st is not None:
+                    # bit rot does not touch the modification time
+                    os.utime(self.cache, ns=(st.st_mtime_ns, st.st_mtime_ns))
         elif op == 'clock':
             self.clock.advance(m[1])
         else:
